@@ -303,3 +303,12 @@ c('NaiveWeek::checked_first_day', U, requires="dwf(self.date)",
   ensures="({ let k = %s; 0 <= k <= 6 && (r.is_some() <==> dn(self.date) - k >= DN_MIN()) && (r.is_some() ==> dwf(r.unwrap()) && dn(r.unwrap()) == dn(self.date) - k && weekday_of(dn(r.unwrap())) == wd_idx(self.start)) })" % WK)
 c('NaiveWeek::checked_last_day', U, requires="dwf(self.date)",
   ensures="({ let k = %s; (r.is_some() <==> dn(self.date) - k + 6 <= DN_MAX()) && (r.is_some() ==> dwf(r.unwrap()) && dn(r.unwrap()) == dn(self.date) - k + 6) })" % WK)
+
+# ------------------------------------------------------------------------------------------------
+# C05/C16  transition-table lookups (src/offset/local/tz_info/timezone.rs) -- Verus (units/tz.py)
+U = 'verus:tz'
+c('TimeZoneRef::find_local_time_type_from_local', U,
+  requires="tz_wf(self.transitions@, self.local_time_types@), tz_sep(self.transitions@, self.local_time_types@), *self.extra_rule is None, dtwf(local_time)",
+  ensures="from_local_post(self.transitions@, self.local_time_types@, unix_secs(local_time), r)")
+c('TimeZoneRef::validate', U,
+  ensures="r is Ok ==> tz_wf(self.transitions@, self.local_time_types@)")
